@@ -145,6 +145,64 @@ def worker(args, scratch):
                 if len(res["samples"]) < 2:
                     res["samples"].append(wit)
             bump("spoofed_copies", len(spoofs))
+        # ---- uploads whose body arrives 1.2-2.5 s after the head (a second boundary passes while the proxy waits for the body): still exactly one
+        # date header, current for the request
+        def slow_upload(k):
+            who = callers[0]
+            vid = "c05-%d-slowup%d" % (args["shard"], k)
+            body = b"B" * 2000
+            try:
+                c = w.open("imds", who)
+                head = rawhttp.build_request("POST", "/slow/upload?k=%d" % k, [("x-vf-id", vid), ("Content-Length", str(len(body)))], b"")
+                t0 = time.time()
+                c.send(head)
+                time.sleep([1.2, 2.5, 0.0][k % 3])
+                c.send(body)
+                c.read_response(b"POST")
+                c.close()
+                slow_up.append((vid, t0, time.time()))
+            except Exception as e:  # noqa
+                if not common.is_timeout(e):
+                    slow_up.append((vid, "error", repr(e)))
+        slow_up = []
+        ups_threads = [threading.Thread(target=slow_upload, args=(k,)) for k in range(6)]
+        for t in ups_threads: t.start()
+        for t in ups_threads: t.join()
+        for vid, t0, t1 in slow_up:
+            res["evaluations"] += 1
+            if t0 == "error":
+                res["violations"].append(["no-response", {"id": vid, "err": t1}]); continue
+            for u in w.upstream(vid):
+                dates = u.headers_named("x-ms-azure-host-date")
+                bump("uploads_with_late_body")
+                wit = {"id": vid, "received_head": u.raw_head.decode("latin-1"), "history": "request body sent %.1f s after the request head" % (t1 - t0)}
+                if len(dates) != 1:
+                    res["violations"].append(["date-header-count-%d" % len(dates), wit])
+                if len(u.headers_named("x-ms-azure-host-claims")) != 1:
+                    res["violations"].append(["claims-header-count-%d" % len(u.headers_named("x-ms-azure-host-claims")), wit])
+            res["nontrivial"].append("slow-upload-" + vid[-1])
+        # ---- one process, two connections whose kernel records disagree on the elevation bit (a daemon that dropped or gained privileges, a
+        # recycled pid): the claims header announces what THIS connection's record says
+        for k in range(10):
+            who = callers[k % len(callers)]
+            for flip, is_root in enumerate(([1, 0] if k % 2 else [0, 1])):
+                vid = "c05-%d-flip%d-%d" % (args["shard"], k, flip)
+                try:
+                    c = w.open("other", who, uid=0 if is_root else 1001, is_root=is_root)
+                    c.send(rawhttp.build_request("GET", "/flip/%d" % k, [("x-vf-id", vid)]))
+                    c.read_response()
+                    c.close()
+                except Exception as e:  # noqa
+                    continue
+                res["evaluations"] += 1
+                for u in w.upstream(vid):
+                    cl = u.headers_named("x-ms-azure-host-claims")
+                    want = ('{ "isRoot": "%s"}' % ("true" if is_root else "false")).encode()
+                    bump("same_pid_other_elevation_connections")
+                    if len(cl) != 1 or cl[0] != want:
+                        res["violations"].append(["claims-header-wrong-value", {"id": vid, "pid": who.pid, "record_is_root": is_root, "claims_seen": [x.decode("latin-1") for x in cl],
+                                                                                  "history": "second connection of the same pid whose record carries the other elevation bit" if flip else "first connection"}])
+            res["nontrivial"].append("elevation-flip-%d" % (k % 4))
         # ---- the host closes its side of the connection without announcing it; the client goes on using its keep-alive connection and
         # supplies an authorization header of its own: whatever the proxy does with the later request (gateway error, re-connect), a request
         # that reaches the host carries the proxy's headers and the proxy's signature
